@@ -72,7 +72,8 @@ typedef struct FsNode {
     int opens;
     struct SimFile *lock_owner;
     struct SimFile *listener;  /* for socket nodes */
-    uint64_t write_limit;      /* crash writer when this many bytes have been written (0 = off) */
+    bool limit_on;             /* torn-write fault armed */
+    uint64_t write_limit;      /* crash the writer once exactly this many bytes have reached the file */
     uint64_t written;
 } FsNode;
 
